@@ -57,11 +57,12 @@ type opRes struct {
 }
 
 type taskState struct {
-	id      int
-	w       *world
-	results []cty.Value
-	own     []cty.ValueSet // task-owned sets
-	ownP    []cty.PathSet
+	id        int
+	w         *world
+	results   []cty.Value
+	own       []cty.ValueSet // task-owned sets
+	ownP      []cty.PathSet
+	heldPaths []cty.Path // paths the task obtained from the library and keeps
 }
 
 type sel int
@@ -205,8 +206,54 @@ func init() {
 	}, selAny)
 	defOp("GoString", "", func(t *taskState, a [3]cty.Value, p [3]int) opRes { return sres("%s", stableGoString(a[0])) }, selAny)
 	defOp("Hash", "", func(t *taskState, a [3]cty.Value, p [3]int) opRes {
+		if !a[0].ContainsMarked() {
+			// the shared value itself, not a rebuilt copy: a lazily filled cache hanging off a shared
+			// value or type is touched here for the first time
+			return sres("%d", a[0].Hash())
+		}
 		u, _ := a[0].UnmarkDeep()
 		return sres("%d", u.Hash())
+	}, selAny)
+	defOp("SetOfShared", "", func(t *taskState, a [3]cty.Value, p [3]int) opRes {
+		// hashing and comparing shared values in place (no rebuild)
+		if a[0].ContainsMarked() || a[1].ContainsMarked() {
+			return sres("marked")
+		}
+		s := cty.SetVal([]cty.Value{a[0], a[1]})
+		return opRes{vals: []cty.Value{s, s.HasElement(a[0])}, s: fmt.Sprint(s.LengthInt())}
+	}, selAny, selSame)
+	defOp("ValueTypeOps", "", func(t *taskState, a [3]cty.Value, p [3]int) opRes {
+		ty, ty2 := a[0].Type(), a[1].Type()
+		js, err := ty.MarshalJSON()
+		return sres("%t %s %s %s %d %t %t %s", ty.Equals(ty2), ty.FriendlyName(), ty.GoString(), js, len(ty.TestConformance(ty2)), ty.HasDynamicTypes(), ty.IsPrimitiveType(), errClass(err))
+	}, selAny, selAny)
+	defOp("PathSiblings", "alias.out.path", func(t *taskState, a [3]cty.Value, p [3]int) opRes {
+		// several children derived from one parent: each must stay what it was when it was returned
+		var parent cty.Path
+		switch p[0] % 3 {
+		case 0:
+			parent = t.w.paths[p[1]%len(t.w.paths)]
+		case 1:
+			parent = cty.GetAttrPath("a").IndexInt(0).GetAttr("b") // chained: the append growth leaves spare capacity
+		case 2:
+			_, pvm := a[0].UnmarkDeepWithPaths()
+			if len(pvm) == 0 {
+				parent = cty.IndexStringPath("k").GetAttr("a").IndexInt(1).GetAttr("c").IndexInt(2)
+			} else {
+				// (the order of the reported paths is unspecified: choose by content)
+				sort.Slice(pvm, func(i, j int) bool {
+					return cty.VerifFingerprintPath(pvm[i].Path) < cty.VerifFingerprintPath(pvm[j].Path)
+				})
+				parent = pvm[p[1]%len(pvm)].Path
+			}
+		}
+		c1 := parent.GetAttr("first")
+		c2 := parent.IndexInt(7)
+		c3 := parent.IndexString("k")
+		c4 := parent.Index(cty.StringVal("last"))
+		c5 := parent.Copy().GetAttr("fifth")
+		t.heldPaths = append(t.heldPaths, c1, c2, c3, c4, c5)
+		return sres("%s %s %s %s %s", cty.VerifFingerprintPath(c1), cty.VerifFingerprintPath(c2), cty.VerifFingerprintPath(c3), cty.VerifFingerprintPath(c4), cty.VerifFingerprintPath(c5))
 	}, selAny)
 	defOp("Range", "", func(t *taskState, a [3]cty.Value, p [3]int) opRes {
 		u, _ := a[0].Unmark()
@@ -913,6 +960,7 @@ func c20GenWorld(c *Ctx) *world {
 	w.paths = []cty.Path{
 		cty.GetAttrPath("a"), cty.GetAttrPath("b"), cty.IndexIntPath(0), cty.IndexIntPath(1), cty.IndexStringPath("a"),
 		cty.GetAttrPath("a").IndexInt(0), cty.IndexIntPath(0).GetAttr("a"), cty.IndexStringPath("k").IndexInt(2), cty.GetAttrPath("c").GetAttr("a"), {},
+		cty.GetAttrPath("a").IndexInt(0).GetAttr("b"), cty.IndexIntPath(1).IndexInt(0).IndexString("k").GetAttr("a").IndexInt(3),
 	}
 	nP := c.G(3)
 	for i := 0; i < nP; i++ {
@@ -1198,11 +1246,19 @@ func simC20World(c *Ctx) {
 		nTasks = 2 + c.G(15)
 	}
 	progs := c20GenPrograms(c, w, nTasks)
+	sameProg := c.G(4) == 0
+	if sameProg {
+		// every task runs the same program: whatever is initialised lazily on first use is first
+		// used by all of them at once
+		for ti := range progs {
+			progs[ti] = progs[0]
+		}
+	}
 	orderB := 1 + c.Int(tape.MapOrder, verifseam.NumOrders-1)
 	orderBArg := c.U64(tape.MapOrder)
 	sched1 := c20GenSched(c, nTasks)
 	sched2 := c20GenSched(c, nTasks)
-	concFirst := c.Int(tape.Sched, 3) == 2
+	concFirst := c.Int(tape.Sched, 2) == 1 || sameProg
 	c.Planned()
 
 	nOps := 0
@@ -1213,7 +1269,13 @@ func simC20World(c *Ctx) {
 			c.API(opTable[in.op].name)
 		}
 	}
-	c.AddShape(fmt.Sprintf("tasks=%d ops=%d pool=%d", nTasks, nOps, len(w.vals)))
+	c.AddShape(fmt.Sprintf("tasks=%d ops=%d pool=%d same=%t first=%t", nTasks, nOps, len(w.vals), sameProg, concFirst))
+	if sameProg {
+		c.Fired("sched.same-program-cold-start")
+	}
+	if concFirst {
+		c.Fired("sched.concurrent-before-sequential")
+	}
 	base := w.fingerprints()
 	checkPool := func(phase string) {
 		now := w.fingerprints()
@@ -1248,6 +1310,7 @@ func simC20World(c *Ctx) {
 	verifseam.SetMainOrder(verifseam.OrderAsc, 0)
 	var live []cty.Value
 	var liveFP []string
+	heldFP := map[string]string{}
 	ref := runSequential(w, progs, func(t *taskState, ti, k int, in opInst, r opRes) {
 		d := opTable[in.op]
 		if d.fault != "" {
@@ -1277,6 +1340,15 @@ func simC20World(c *Ctx) {
 				c.Fail("C20", cls, cls+":result:"+d.name,
 					"an earlier result changed when task %d executed op %d %s\nbefore: %s\nafter:  %s", ti, k, in, clip(liveFP[i]), clip(got))
 			}
+		}
+		for i, hp := range t.heldPaths {
+			key := fmt.Sprintf("%d/%d", ti, i)
+			now := cty.VerifFingerprintPath(hp)
+			if was, ok := heldFP[key]; ok && was != now {
+				c.Fail("C20", "mutated-by-call", "mutated-by-call:path:"+d.name,
+					"a path returned earlier to task %d changed when it executed op %d %s\nbefore: %s\nafter:  %s", ti, k, in, was, now)
+			}
+			heldFP[key] = now
 		}
 		for _, v := range r.vals {
 			if v != cty.NilVal && len(live) < 400 {
